@@ -245,13 +245,19 @@ def check_pipeline(check, wp, sources, ver, tier, rng, label="cli-spec"):
     exps = cli.expectations(wp, sources, ver)
     keep = [(s, e) for s, e in zip(sources, exps) if not (e.get("panic") or e.get("hang") or e.get("crash") or e.get("noroot"))]
     binary = build()
+    # files far above any plausible size threshold of the tool (buffers, pools, pipes): 70 KiB .. 300 KiB
+    bigs = [(s, e) for s, e in keep if len(s) >= 60000]
+    small = [(s, e) for s, e in keep if len(s) < 60000]
+    if len(small) < 8:
+        raise core.InfraError("clispec: fewer than 8 usable small sources")
     # ---- spec -> impl: schedules forced on the real binary
     nsched = 0
     confs = [(3, 2, 40), (4, 3, 30)] if tier == "quick" else [(3, 2, 300), (4, 3, 300), (5, 4, 200), (6, 2, 200)]
     for f, procs, num in confs:
         scheds = schedules(check, f, procs, procs, num, core.seed())
         for si, s in enumerate(scheds):
-            pick = rng.sample(keep, f)
+            pick = rng.sample(small, f - 1) + (rng.sample(bigs, 1) if bigs else rng.sample(small, 1))
+            rng.shuffle(pick)
             files = [("f%04d.php" % i, src.encode("latin-1")) for i, (src, _) in enumerate(pick)]
             ex = [e for _, e in pick]
             flags = [["-pb"], ["-d", "-p", "-e"], ["-pb", "-d", "-p", "-e"]][si % 3]
@@ -278,7 +284,10 @@ def check_pipeline(check, wp, sources, ver, tier, rng, label="cli-spec"):
     for f, procs, reps in runs:
         batch, metas, nobj = [], [], 1
         for k in range(reps):
-            pick = rng.sample(keep, min(f, len(keep)))
+            nb = min(len(bigs), 3)
+            pick = rng.sample(small, min(f - nb, len(small))) + rng.sample(bigs, nb)
+            rng.shuffle(pick)
+            f_ = len(pick)
             files = [("f%04d.php" % i, src.encode("latin-1")) for i, (src, _) in enumerate(pick)]
             flags = [["-pb"], ["-d", "-p", "-e"], ["-r", "-p"]][k % 3]
             rc, out, err, after, log = run_traced(binary, files, flags, ver, procs)
